@@ -10,7 +10,7 @@ use krill::constants::TASK_QUEUE_NS;
 use krill::server::mq::TaskQueue;
 use serde_json::json;
 
-use crate::util::{Args, CaseWriter, Rng, coq_list, write_json};
+use kvh::util::{Args, CaseWriter, Rng, coq_list, write_json};
 
 const QS_ID: u64 = 100; // name id of "queue_start_tasks"
 const WALL_LO: u128 = 1_000_000_000_000; // 2001-09-09 in ms: anything from here up to WALL_HI is a clock reading
@@ -87,7 +87,12 @@ fn raw_key(store: &KeyValueStore, scope: &str, e: &Entry, clock: &Clock) -> Opti
     None
 }
 
-pub fn run(args: &Args) -> i32 {
+fn main() {
+    let args = &Args::parse("c09");
+    std::process::exit(run(args));
+}
+
+fn run(args: &Args) -> i32 {
     let mut rng = Rng::new(args.seed);
     let n_seq = args.get_u64("sequences", if args.thorough() { 6000 } else { 400 });
     let max_len = args.get_u64("maxlen", 30);
@@ -100,7 +105,7 @@ pub fn run(args: &Args) -> i32 {
     let mut distinct: BTreeSet<String> = BTreeSet::new();
     let mut restart_running_hist: BTreeMap<usize, u64> = BTreeMap::new();
     let mut samples: Vec<serde_json::Value> = Vec::new();
-    let tmp_root = PathBuf::from(format!("/verif/cache/run/c09-disk-{}", std::process::id()));
+    let tmp_root: PathBuf = args.out.join(format!("disk-{}", std::process::id()));
 
     for seq in 0..n_seq {
         let disk = seq % 4 == 3; // a quarter of the sequences run on the disk back-end
